@@ -5,10 +5,10 @@ import lib_doc as L
 from framework import Result
 
 ID = 'C09'
-# ---- PLACEHOLDER (to be filled in by the proof side): Lean targets and theorem names ----------
-LEAN_TARGETS = []
-THEOREMS = []
-# -----------------------------------------------------------------------------------------------
+LEAN_TARGETS = ['TexSoupProofs.Properties.C09']
+THEOREMS = ['TexSoup.C09.' + n for n in (
+    'bracket_needs_no_partner', 'group_closes_only_on_own_delimiter', 'first_argument_is_next_group',
+    'arguments_have_exact_contents', 'spacer_dropped_only_before_opener')]
 PARTIAL = []
 TRUSTED = ['harness/props/c09.py (enumeration of name x group run x separator x context, expected attachment)',
            'harness/gen_doc.py (documents with attaching separators, expected tree)',
@@ -317,9 +317,9 @@ def correspondence(ctx):
 def oracle(ctx, seeds, scale):
     r = Result()
     common.impl()
-    for s in seeds:
-        if isinstance(s, str):
-            r.count(('seed', s), True)
+    # the inputs on which the correspondence diverged are among the (shared) inputs below, where they are
+    # evaluated first-class with their generating record; nothing more can be said about a bare string
+    r.stats['diverging_inputs_received'] = len([s for s in seeds if isinstance(s, str)])
     key = (ctx.tier, ctx.seed, True, 1)
     res = list(_CACHE[key]) if key in _CACHE and scale == 1 else list(_run(ctx, False, scale))
     st = L.merge_jobs(res, None, r)
